@@ -109,6 +109,10 @@ def family():
                                       f("r", "long")]), "defaults")
     add("rec_defaults3", _rec("Dflt3", [f("x", ["int", "null"], default=5), f("s", ["string", "null"], default="dd"),
                                         f("k", "int")]), "defaults")
+    add("rec_defaults4", _rec("Dflt4", [f("xs", {"type": "array", "items": "int"}, default=[1, 2]),
+                                        f("e", _enum("Ed")), f("e2", "Ed", default="A")]), "defaults")
+    add("rec_defaults5", _rec("Dflt5", [f("m", {"type": "map", "values": "string"}, default={"k": "v"}), f("k", "int")]),
+        "defaults")
     add("rec_defaults2", _rec("Dflt2", [f("s", "string", default="dd"), f("r", "int"),
                                         f("e", _enum("De"), default="B")]), "defaults")
     # references and namespaces
